@@ -298,6 +298,51 @@ fn run_part(rep: &mut Report, chains: &Chains, part: &Part, wall: Instant) -> us
     configs.len()
 }
 
+/// Conformance part: every configuration once on two real SqliteStores (real sqlx pool, real tokio
+/// runtime) against the MemStore run of the default schedule (see `sqlconf`).
+fn run_sqlite_part(rep: &mut Report, chains: &Chains, name: &'static str, options: &[Vec<SlotCfg>], wall: Instant) -> usize {
+    let threads = rep.args.threads;
+    let configs = spread(product(options));
+    let acc = par_for(&configs, threads, wall, |_, (idx, cfg), acc: &mut Acc| {
+        thread_local! {
+            static RT: tokio::runtime::Runtime = crate::sqlconf::rt();
+        }
+        let idx = *idx;
+        acc.executions += 1;
+        let mem = match crate::sqlconf::run_mem(chains, cfg) {
+            Ok(t) => t,
+            Err(e) => {
+                // judged by the exploration parts; nothing to compare against
+                acc.count("sqlite-conformance/reference-run-incomplete", 1);
+                let _ = e;
+                return;
+            }
+        };
+        let sql = RT.with(|rt| crate::sqlconf::run_sqlite(rt, chains, cfg));
+        let diffs = match sql {
+            Ok(t) => crate::sqlconf::compare(chains, cfg, &mem, &t),
+            Err(e) => vec![("sqlite-differs-from-memstore/session-did-not-complete".to_string(), format!("{e}. Configuration: {}", describe(cfg)))],
+        };
+        let n: usize = mem.received.iter().map(|r| r.len()).sum();
+        acc.steps += (mem.wire[0].len() + mem.wire[1].len()) as u64;
+        acc.state(&("sqlite", idx));
+        acc.outcome(&("sqlite", mem.received.iter().map(|r| r.len()).collect::<Vec<_>>()));
+        if n > 0 {
+            acc.nontrivial(&("sqlite", cfg));
+            acc.count("sqlite-conformance/configurations-with-transfer", 1);
+        }
+        for (key, what) in diffs {
+            acc.violation(&key, (0, idx as u64, 0), || what.clone(), || json!({"part": name, "config_index": idx, "config": to_json(cfg)}));
+        }
+    });
+    let n = acc.executions;
+    let with_transfer = acc.counters.get("sqlite-conformance/configurations-with-transfer").copied().unwrap_or(0);
+    rep.transitions += acc.steps;
+    acc.into_report(rep, name, 0);
+    rep.set("sqlite_conformance", json!({"configurations_replayed_on_SqliteStore": n, "with_operations_transferred": with_transfer}));
+    configs.len()
+}
+
 pub fn run(mut rep: Report) -> i32 {
     let thorough = rep.thorough();
     let pp_all = [None, Some(1), Some(2)];
@@ -319,6 +364,7 @@ pub fn run(mut rep: Report) -> i32 {
         .map(|side| SlotCfg { a: 1, l: 0, p: None, side })
         .collect()
     };
+    let reps_a1_c = reps_a1.clone();
     let reps_a0l1: Vec<SlotCfg> = reps_a1.iter().map(|s| SlotCfg { a: 0, l: 1, ..s.clone() }).collect();
     let parts: Vec<Part> = if !thorough {
         vec![
@@ -385,9 +431,28 @@ pub fn run(mut rep: Report) -> i32 {
         let deadline = start + Duration::from_secs_f64(budget * cum.min(1.0));
         total += run_part(&mut rep, &chains, p, deadline);
     }
+    // binding to the real store: the same configurations once on SqliteStore
+    let sql_deadline = Instant::now() + Duration::from_secs(if thorough { 150 } else { 15 });
+    if thorough {
+        total += run_sqlite_part(
+            &mut rep,
+            &chains,
+            "sqlite-conformance: author0 log0 with prune points {none,1,2} and pruned prefixes x author0 log1 heights x 5 author1 states, default schedule on two real SqliteStores vs the reference store",
+            &[full(0, 0), plain(0, 1), reps_a1_c.clone()],
+            sql_deadline,
+        );
+    } else {
+        total += run_sqlite_part(
+            &mut rep,
+            &chains,
+            "sqlite-conformance: author0 log0 with prune points {none,1,2} and pruned prefixes x 5 author1 states, default schedule on two real SqliteStores vs the reference store",
+            &[full(0, 0), reps_a1_c.clone()],
+            sql_deadline,
+        );
+    }
     rep.set("configurations", json!(total));
     rep.assume("'shared logs' is read as the logs of the session: a side offers the logs of its own Logs map; a receiver's 'own height' is its store height for logs in its own Logs map and 'none' otherwise");
-    rep.assume("MemStore (refmodel) stands in for SqliteStore; on SqliteStore an author with an empty log list makes get_log_heights panic (property C08), which MemStore does not model");
+    rep.assume("schedules are explored on MemStore (refmodel), whose equivalence with SqliteStore is decided by C08/C09; in addition the sqlite-conformance part replays every configuration of its product once on two real SqliteStores and demands the transcript of the MemStore run (outcome, messages written, operations announced, ingest results, heights)");
     rep.assume("chains have length 3 and at most one prune point; the product 2 authors x 2 logs x heights {empty,0,1,2} per side is enumerated completely (thorough); unlisted logs, empty log lists and pruned prefixes (1.5e8 pairs as one product) are covered by the sub-products listed in parts");
     rep.assume("received operations are ingested with the operation's own prune flag; pruning itself (log_prune processor) is not applied, it does not change heights");
     rep.finish()
